@@ -78,6 +78,7 @@ def answer(cls, word, topo="C", rec=None, keep=None):
 
 
 _hooks = {}
+_sigparents = {}
 
 
 def resolve(classes, ref):
@@ -92,6 +93,15 @@ def resolve(classes, ref):
         if ref[0] == "cut":          # the same type over another enzyme (only the cutter is redefined)
             import asm
             return type("Variant", (base,), {"cutter": asm.enzyme(ref[2])})
+        if ref[0] in ("sigparent", "sigchild"):
+            # a part type and a type derived from it whose signature is spelt differently (ref[2:4] the parent's,
+            # ref[4:6] the child's): two classes, two structures
+            key_ = (ref[1], ref[2], ref[3])
+            if key_ not in _sigparents:
+                _sigparents[key_] = type("Variant", (base,), {"signature": (ref[2], ref[3])})
+            if ref[0] == "sigparent":
+                return _sigparents[key_]
+            return type("VariantKid", (_sigparents[key_],), {"signature": (ref[4], ref[5])})
         if ref[0] in ("hookparent", "hookkid"):
             # a laboratory's catalogue mixin with a class-creation hook that does not chain to super(), placed before the
             # kit type: the classes made under it are classes like any other
@@ -212,6 +222,9 @@ def check_case(ctx, case):
             def nm(x):
                 if isinstance(x, list) and x[0] in ("sig", "sigsame"):
                     return "part type 'Variant' {}/{} derived from {}".format(x[2], x[3], classes[x[1]].__name__)
+                if isinstance(x, list) and x[0] in ("sigparent", "sigchild"):
+                    return "part type 'Variant' {}/{} derived from {}".format(x[2], x[3], classes[x[1]].__name__) \
+                        if x[0] == "sigparent" else "its subclass with signature {}/{}".format(x[4], x[5])
                 if isinstance(x, list) and x[0] in ("hookparent", "hookkid"):
                     return ("type under a non-chaining __init_subclass__ mixin derived from " + classes[x[1]].__name__
                             if x[0] == "hookparent" else "subclass {}/{} of that type".format(x[2], x[3]))
@@ -227,7 +240,8 @@ def check_case(ctx, case):
     refs = [h[0] for h in hist]
     ctx.note("history-len={}".format(min(len(hist), 6)))
     ctx.case(case, nontrivial=len({json.dumps(r) for r in refs}) > 1)
-    if any(isinstance(r, list) and r[0] in ("sig", "sigsame") and (r[2] != r[2].upper() or r[3] != r[3].upper()) for r in refs):
+    if any(isinstance(r, list) and r[0] in ("sig", "sigsame", "sigparent", "sigchild")
+           and any(isinstance(x_, str) and x_ != x_.upper() for x_ in r[2:]) for r in refs):
         return          # a pattern letter in lower case is a literal: outside the model's pattern alphabet, oracle only
     if any(isinstance(r, list) and r[0] == "char" for r in refs):
         # model (`characterize_after_history`): whatever came before, the answer is the first accepting candidate —
@@ -254,7 +268,7 @@ def check_case(ctx, case):
     def fields():
         out = {}
         for ref in refs:
-            if isinstance(ref, list) and ref[0] in ("sig", "sigsame", "cut", "hookparent", "hookkid"):
+            if isinstance(ref, list) and ref[0] in ("sig", "sigsame", "cut", "hookparent", "hookkid", "sigparent", "sigchild"):
                 cls = resolve(classes, ref)
             else:
                 cls = classes[ref[1]] if isinstance(ref, list) else classes[ref]
@@ -335,6 +349,24 @@ def run(ctx):
         inst = inst_of(classes, ref, 3, rng.getrandbits(32))
         ctx.guard(check_case, {"history": [[a, words[a]], [ref, gen.rot(inst + gen.rnd(rng, 5), rng.randrange(6))],
                                            [ref, words[a]]]})
+    # a type and a subclass of it whose signature differs only in the case of an ambiguity letter (`N` any base, `n` the
+    # letter n): the parent asked first, then the child about a record with a definite base there
+    for _ in range(ctx.budget(20, 500)):
+        if not sigbases:
+            break
+        a = rng.choice(sigbases)
+        k = len(classes[a].signature[0])
+        up = "N" + gen.rnd(rng, k - 1) if k >= 2 else "N"
+        down = gen.rnd(rng, k)
+        par = ["sigparent", a, up, down]
+        kid = ["sigchild", a, up, down, up.replace("N", "n", 1), down]
+        try:
+            inst = inst_of(classes, ["sig", a, up, down], rng.choice([2, 5]), rng.getrandbits(32))
+        except Exception:  # noqa
+            continue
+        w_ = gen.rot(inst + gen.rnd(rng, 6), rng.randrange(8))
+        ctx.guard(check_case, {"history": [[par, w_], [kid, w_]]})
+        ctx.guard(check_case, {"history": [[kid, w_], [par, w_], [kid, w_]]})
     # classes made under a mixin whose __init_subclass__ does not call super(): parent asked first, then its subclass
     for _ in range(ctx.budget(25, 600)):
         if not sigbases:
